@@ -3,6 +3,7 @@
 #include "ccl/rslang/SyntaxTree.h"
 
 #include <unordered_map>
+#include <unordered_set>
 
 namespace ccl::rslang {
 //! Converter for AST into standard form
@@ -16,6 +17,8 @@ private:
   SyntaxTreeContext termFuncs;
 
   TupleSubstitutes tupleSubstitutes{};
+  NameSubstitutes tupleNames{};
+  std::unordered_set<std::string> usedTupleNames{};
   NodeSubstitutes nodeSubstitutes{};
   NameSubstitutes nameSubstitutes{};
   uint32_t localVarBase{ 0 };
